@@ -953,8 +953,9 @@ FALLBACK_ANALYSIS = None  # filled lazily from /repo's committed shape below
 def fallback() -> str:
     a = dict(
         cfg=dict(save_before_seed=True, reseeds=True, restore_on_normal=True, restore_on_raise=True),
-        links=[(m, "", "fallback", XID if m != FALLBACK_OPEN_MODE else XDROP) for m in
-               ("exposure", "observation", "observation_dask", "calibration", "calibration_pygmo")],
+        links=[(m, e, "fallback", XID if m != FALLBACK_OPEN_MODE else XDROP)
+               for m in ("exposure", "observation", "observation_dask", "calibration", "calibration_pygmo")
+               for e in (("", "ctor", "yaml", "setter", "override") if m != "calibration_pygmo" else ("",))],
         seed_truthiness=[], island_build=[("parallel", "BMap"), ("sequential", "BMap")],
         models=[dict(name=n, inside=1, outside=0, bare_seed=0, bracket_seed=True) for n in FALLBACK_MODELS],
         seed_sites=[],
